@@ -1089,7 +1089,7 @@ static void run_image(const fsm_t *f, image_t *im, const char *base, int do_foll
     status = 0;
   } else {
     fflush(NULL);
-    pid = fork();
+    pid = iom_fork();
     if (pid < 0) vh_fatal("fork: %s", strerror(errno));
     if (pid == 0) {
       child_main(dir, &x, im, do_follow, do_nested);
